@@ -78,10 +78,12 @@ const (
 	OpOnce
 	OpCounterAdd
 	OpCounterRead
+	OpAtomicLoad
+	OpAtomicRMW // store, add, swap, compare-and-swap: writes (read-modify-writes also acquire)
 	OpNever
 )
 
-var OpNames = []string{"start", "send", "sendwait", "recv", "close", "wgadd", "wgdone", "wgwait", "poolget", "poolput", "yield", "exit", "lock", "unlock", "rlock", "runlock", "once", "ctradd", "ctrread", "never"}
+var OpNames = []string{"start", "send", "sendwait", "recv", "close", "wgadd", "wgdone", "wgwait", "poolget", "poolput", "yield", "exit", "lock", "unlock", "rlock", "runlock", "once", "ctradd", "ctrread", "atomicload", "atomicrmw", "never"}
 
 type VC map[string]int
 
@@ -157,6 +159,8 @@ func pendingObjVC(g *G) VC {
 		return g.obj.(*WaitGroup).vc
 	case OpCounterRead:
 		return g.obj.(*Counter).vc
+	case OpAtomicLoad, OpAtomicRMW:
+		return g.obj.(*AtomicCell).vc
 	}
 	return nil
 }
@@ -176,26 +180,28 @@ type Strategy interface {
 
 // Sched is one controlled execution.
 type Sched struct {
-	gs        []*G
-	sorted    []*G // live and finished goroutines in id order
-	parked    chan *G
-	strat     Strategy
-	last      *G
-	Deadlock  bool   // no enabled goroutine while the root has not finished
-	Leaked    int    // goroutines still blocked after the root and everything enabled finished
-	Blocked   string // description of the blocked goroutines at a deadlock/leak
-	Panics    []string
-	aborting  bool
-	WasCut    bool
-	Steps     int // executed transitions
-	SchedPts  int // transitions at which >= 2 goroutines were enabled
-	DataPts   int // environment choice points with >= 2 alternatives
-	MaxEn     int
-	Collide   int // scheduling points where >= 2 enabled goroutines address the same shim object
-	nobj      int
-	lastClock int
-	StepLimit int
-	HitLimit  bool
+	atomics     map[uintptr]*AtomicCell
+	postPending bool
+	gs          []*G
+	sorted      []*G // live and finished goroutines in id order
+	parked      chan *G
+	strat       Strategy
+	last        *G
+	Deadlock    bool   // no enabled goroutine while the root has not finished
+	Leaked      int    // goroutines still blocked after the root and everything enabled finished
+	Blocked     string // description of the blocked goroutines at a deadlock/leak
+	Panics      []string
+	aborting    bool
+	WasCut      bool
+	Steps       int // executed transitions
+	SchedPts    int // transitions at which >= 2 goroutines were enabled
+	DataPts     int // environment choice points with >= 2 alternatives
+	MaxEn       int
+	Collide     int // scheduling points where >= 2 enabled goroutines address the same shim object
+	nobj        int
+	lastClock   int
+	StepLimit   int
+	HitLimit    bool
 }
 
 var cur *Sched
@@ -268,7 +274,7 @@ func (s *Sched) enabled(g *G) bool {
 		return false
 	}
 	switch g.kind {
-	case OpStart, OpClose, OpWGAdd, OpWGDone, OpPoolGet, OpPoolPut, OpYield, OpCounterAdd, OpCounterRead, OpUnlock, OpRUnlock:
+	case OpStart, OpClose, OpWGAdd, OpWGDone, OpPoolGet, OpPoolPut, OpYield, OpCounterAdd, OpCounterRead, OpUnlock, OpRUnlock, OpAtomicLoad, OpAtomicRMW:
 		return true
 	case OpSend:
 		return g.obj.(chanState).canSend()
@@ -814,6 +820,7 @@ func (m *Mutex) Unlock() {
 	s.last.tick()
 	m.vc = copyVC(s.last.vc)
 	m.locked = false
+	s.post()
 }
 
 type RWMutex struct {
@@ -854,6 +861,7 @@ func (m *RWMutex) Unlock() {
 	s.last.tick()
 	m.vc = copyVC(s.last.vc)
 	m.writer = false
+	s.post()
 }
 func (m *RWMutex) RLock() {
 	s := cur
@@ -887,6 +895,7 @@ func (m *RWMutex) RUnlock() {
 	}
 	joinInto(m.vc, s.last.vc)
 	m.readers--
+	s.post()
 }
 
 type Once struct {
@@ -1064,4 +1073,75 @@ func MapKeys[K comparable, V any](m map[K]V) []K {
 		keys = append(keys[:k:k], keys[k+1:]...)
 	}
 	return append(out, keys...)
+}
+
+// ---------- sync/atomic operations as visible operations ----------
+
+// AtomicCell stands for one atomically accessed memory word during one controlled execution.
+type AtomicCell struct {
+	addr uintptr
+	vc   VC
+}
+
+// AtomicPoint is called by the vatomic shim immediately before the real atomic operation on the word at
+// addr: a scheduling point whose object is the word (loads of one word commute; everything else on the
+// same word is dependent). write: the operation stores (Store/Add/Swap/CompareAndSwap/And/Or).
+func AtomicPoint(addr uintptr, write bool) {
+	s := cur
+	if s == nil || s.aborting {
+		return
+	}
+	if s.atomics == nil {
+		s.atomics = map[uintptr]*AtomicCell{}
+	}
+	c := s.atomics[addr]
+	if c == nil {
+		c = &AtomicCell{addr: addr}
+		s.atomics[addr] = c
+	}
+	if write {
+		s.park(OpAtomicRMW, c, 0)
+		if !vcOff {
+			if c.vc == nil {
+				c.vc = VC{}
+			}
+			joinInto(s.last.vc, c.vc)
+			s.last.tick()
+			joinInto(c.vc, s.last.vc)
+		}
+		s.postPending = true // the real operation follows in the shim: the post point is taken by AtomicDone
+		return
+	}
+	s.park(OpAtomicLoad, c, 0)
+	if !vcOff {
+		if c.vc != nil {
+			joinInto(s.last.vc, c.vc)
+		}
+		s.last.tick()
+	}
+}
+
+// PostPoints adds a scheduling point immediately AFTER every release-type operation (mutex unlock, atomic
+// store / read-modify-write): between a publication and the plain memory accesses that follow it. A point
+// before every synchronisation operation covers all behaviours of data-race-free code; code that publishes
+// too early (flag stored before the data, data read after the lock was released) is racy exactly there, and
+// a cooperative scheduler can only expose it if it may switch at that place. Set by the two-callers
+// harnesses around their explorations, never while an execution is running.
+var PostPoints bool
+
+func (s *Sched) post() {
+	if PostPoints && !s.aborting {
+		s.park(OpYield, nil, 0)
+		s.last.tick()
+	}
+}
+
+// AtomicDone is called by the vatomic shim after the real atomic operation.
+func AtomicDone() {
+	s := cur
+	if s == nil || s.aborting || !s.postPending {
+		return
+	}
+	s.postPending = false
+	s.post()
 }
